@@ -392,8 +392,8 @@ func installGate(g string) {
 		// other streams go on (whatever the receiver has told the sender by then
 		// must already be true on disk)
 		verifhook.Set("recv.chunk.afterMark", func(ev verifhook.Event) {
-			if vk.Mix(ev.Seq^ev.A)%3 == 0 {
-				time.Sleep(60 * time.Millisecond)
+			if vk.Mix(ev.Seq^ev.A)%2 == 0 {
+				time.Sleep(80 * time.Millisecond)
 			}
 		})
 	case "recvFinalizePair":
@@ -658,11 +658,18 @@ func runC02(e *Env) {
 		}
 	}
 	// fault-free transfers under the chunk-booking pause (several streams per file)
-	for _, w := range wls {
+	markWls := append([]*c02Workload{}, wls...)
+	for _, w := range c02Workloads() {
+		if w.Name == "wmulti" && byName[w.Name] == nil {
+			byName[w.Name] = w // quick: this family only (several chunks of one file over three streams and two connections)
+			markWls = append(markWls, w)
+		}
+	}
+	for _, w := range markWls {
 		if w.PairOnly || w.OthersOnly || w.Cfg.Streams < 2 {
 			continue
 		}
-		for rep := 0; rep < e.Pick(8, 30); rep++ {
+		for rep := 0; rep < e.Pick(24, 60); rep++ {
 			add(c02Case{W: w.Name, Gate: "recvAfterMark60", Other: "no-fault", Rep: rep})
 		}
 	}
